@@ -49,7 +49,12 @@ def one_record(c, st, m, lanes, stim, reuse, strip, inj_line, inj_vals):
                     self.append(operator.index(line))
                     return cb(line, view)
             fn = Recorder()
-        s = lsim.run_logic(c, m, lanes, stim, reuse, strip, fn, True)
+        warm = None
+        if (inj_line + 2 * lanes + m) % 4 == 1:
+            # history: the same simulator already ran an injected propagation of another pattern set with another callback
+            alpha = {2: [0, 1], 4: [0, 1, 2, 3], 8: list(range(8))}[m]
+            warm = [[alpha[(v + 1 + i + p) % len(alpha)] for p, v in enumerate(row)] for i, row in enumerate(stim)]
+        s = lsim.run_logic(c, m, lanes, stim, reuse, strip, fn, True, warm=warm, warm_cb=(lambda line, view: None) if warm is not None else None)
         rec['resp'] = lsim.codes(s, 1, lanes)
         # the same simulator instance, propagated once more without any callback
         s.c_prop()
